@@ -111,6 +111,10 @@ def run(tier, seed):
             # tabs that are not worksheets (chart sheets) in front of / between the worksheets: keys still carry the worksheet's own title
             charts = [(0, 'Overview chart')] + ([(2, 'Mid chart')] if len(sheets) > 1 else []) if b % 3 == 1 else []
             realcode.write_xlsx(path, sheets, chartsheets=charts)
+            if b % 4 == 2:
+                from .c18 import stale_dimension
+                stale_dimension(path)          # a writer that leaves <dimension ref="A1"/> whatever the sheet holds: every cell is still scanned
+                chk.count('book:stale-dimension-record')
             chk.count('book:chartsheets:%d' % len(charts))
             chk.seen(('book', b))
             chk.count('book:' + kind)
